@@ -359,16 +359,35 @@ fn malformed_case(rng: &mut Rng, rep: &mut Report, case: u64, bases: &Bases) {
     let Some(m) = graphgen::malform(&g, kind, rng) else { rep.count(&format!("malformed.{kind}.skipped_graph_too_small")); return };
     let class = kind.split('.').next().unwrap_or(kind);
     let (demand_keys, directory) = match &m.demand { Demand::Directory => (known.clone(), true), Demand::Versions(k) => (k.clone(), false) };
-    // two listing orders that are the reverse of each other (e.g. either root file of a two-root directory comes first once)
+    // listing orders: two that are the reverse of each other; for two-root directories six more on purpose: both root files
+    // first / both last / one first and one last, each with either root file ahead of the other
     let want = fsdir::wanted_listing(&m.files, Order::Random, rng);
-    for (i, rev) in [false, true].into_iter().enumerate() {
-        // `make_copy` lists the reverse of the creation order, so hand it the files in a fixed permutation
-        let perm: Vec<FileSpec> = if rev { want.iter().rev().map(|&j| m.files[j].clone()).collect() } else { want.iter().map(|&j| m.files[j].clone()).collect() };
-        let c = make_copy(bases, &format!("m{case}-{i}"), &perm, "tmpfs", Order::RootFirst, rng, &demand_keys, class == "cycle");
-        let (root_pos, _) = fsdir::listing_facts(&perm, &c.listing);
+    let mut perms: Vec<Vec<FileSpec>> = vec![want.iter().map(|&j| m.files[j].clone()).collect(), want.iter().rev().map(|&j| m.files[j].clone()).collect()];
+    if class == "two_roots" {
+        let a: Vec<FileSpec> = m.files.iter().filter(|f| f.kind == graphgen::FileKind::Root).cloned().collect();
+        let b: Vec<FileSpec> = m.files.iter().filter(|f| f.kind == graphgen::FileKind::SecondRoot).cloned().collect();
+        let rest: Vec<FileSpec> = want.iter().map(|&j| m.files[j].clone()).filter(|f| f.kind != graphgen::FileKind::Root && f.kind != graphgen::FileKind::SecondRoot).collect();
+        for (x, y) in [(&a, &b), (&b, &a)] {
+            perms.push(x.iter().chain(y.iter()).chain(rest.iter()).cloned().collect());
+            perms.push(rest.iter().chain(x.iter()).chain(y.iter()).cloned().collect());
+            perms.push(x.iter().chain(rest.iter()).chain(y.iter()).cloned().collect());
+        }
+    }
+    for (i, perm) in perms.iter().enumerate() {
+        // `make_copy` lists the files in the order of the vector it is handed (Order::RootFirst = as given)
+        let c = make_copy(bases, &format!("m{case}-{i}"), perm, "tmpfs", Order::RootFirst, rng, &demand_keys, class == "cycle");
+        if class == "two_roots" {
+            let pos = |k: graphgen::FileKind| perm.iter().find(|f| f.kind == k).and_then(|f| c.listing.iter().position(|s| s == &f.name));
+            if let (Some(pa), Some(pb)) = (pos(graphgen::FileKind::Root), pos(graphgen::FileKind::SecondRoot)) {
+                let (lo, hi, last) = (pa.min(pb), pa.max(pb), c.listing.len() - 1);
+                let where_ = if last == 1 { "nothing_but_the_two_root_files" } else if hi == 1 { "both_root_files_first" } else if lo + 1 == last { "both_root_files_last" } else if lo == 0 && hi == last { "one_root_file_first_one_last" } else { "root_files_somewhere_in_between" };
+                rep.count(&format!("malformed.two_roots.listing.{where_}.{}", if pa < pb { "root_of_the_graph_listed_before_the_other" } else { "other_root_file_listed_before_the_root_of_the_graph" }));
+            }
+        }
+        let (root_pos, _) = fsdir::listing_facts(perm, &c.listing);
         rep.count(&format!("malformed.listing.root_{root_pos}"));
         rep.add("directories.materialised", 1);
-        let detail = |extra: Value| json!({"kind": kind, "why_malformed": m.note, "files": files_json(&perm), "created_in_order": c.created, "read_dir_lists": c.listing, "what": extra});
+        let detail = |extra: Value| json!({"kind": kind, "why_malformed": m.note, "files": files_json(perm), "created_in_order": c.created, "read_dir_lists": c.listing, "what": extra});
         match &c.run.resolve {
             Err(Ans::Panic(site, msg)) => rep.violation(format!("C05 panic {site}"), detail(json!({"call": "resolve", "panic": msg}))),
             Err(Ans::Lost(why)) if why.starts_with("killed") || why.starts_with("died") => rep.violation(format!("C05 malformed directory ({}): the loader does not come back with an error (sandboxed process {why})", class.replace('_', " ")),
@@ -496,6 +515,7 @@ fn main() {
         for level in ["class", "field", "method", "parameter"] { for a in ["add", "remove", "edit", "comment_add", "comment_remove", "comment_edit"] { need(&mut meta, &rep, &format!("diff.{level}.{a}"), 5); } }
         for k in ["edit.class.rename.nested", "edit.class.add.nested", "edit.class.remove.with_nested", "edit.class.name_an_unnamed_one"] { need(&mut meta, &rep, k, 3); }
         for k in graphgen::MALFORMED_KINDS { need(&mut meta, &rep, &format!("malformed.{k}.exercised"), 5); }
+        for w in ["both_root_files_first", "both_root_files_last", "one_root_file_first_one_last"] { for o in ["root_of_the_graph_listed_before_the_other", "other_root_file_listed_before_the_root_of_the_graph"] { need(&mut meta, &rep, &format!("malformed.two_roots.listing.{w}.{o}"), 20); } }
         meta.oblige("two-root directories listed with either root file first", rep.get("malformed.listing.root_first") > 0 && rep.get("malformed.listing.root_last") > 0);
         meta.oblige("at least 1000 answers compared", rep.get("answer.compared") >= 1000);
         meta.oblige("the sandboxed child process (directories with a cycle) always reported", rep.get("harness.child_process_unusable") == 0);
